@@ -13,24 +13,30 @@ Definition covered (have : list string) (fields : list string) : bool :=
   forallb (fun f => existsb (String.eqb f) have) fields.
 
 (* connection pools, locks, per-run state: a clone starts with its own zero values;
-   t2/t3/wrappedRoundTrip are rebuilt below the literal *)
+   t2/t3/wrappedRoundTrip are rebuilt below the literal, the TLS fingerprint handshake is installed anew
+   (gen_fingerprint_reinstalled) *)
 Definition transport_runtime_fields : list string :=
   ["idleMu"; "closeIdle"; "idleConn"; "idleConnWait"; "idleLRU"; "reqMu"; "reqCanceler"; "connsPerHostMu";
    "connsPerHost"; "connsPerHostWait"; "dialsInProgress"; "altSvcJar"; "pendingAltSvcs"; "pendingAltSvcsMu";
-   "t2"; "t3"; "wrappedRoundTrip"]%string.
+   "t2"; "t3"; "wrappedRoundTrip"; "reinstallTLSFingerprint"]%string.
 (* no setter of package req writes these; pool state *)
 Definition t2_unset_fields : list string :=
   ["DialTLS"; "ConnPool"; "IdleConnTimeout"; "CountError"; "connPoolOnce"; "connPoolOrDef"]%string.
 (* copied into a fresh http.Client whose Transport and Jar are then re-pointed *)
 Definition client_ref_special : list string := ["httpClient"]%string.
-(* Options.Clone: TLSClientConfig and Dump are cloned; ProxyConnectHeader (no in-place setter) stays shared *)
 Definition options_ref_fields : list string := ["TLSClientConfig"; "ProxyConnectHeader"; "Dump"]%string.
+(* the fields of the client's *tls.Config that package req writes or extends in place: InsecureSkipVerify is
+   copied by value by tls.Config.Clone, Certificates and RootCAs get their own storage in Options.Clone (t_tls) *)
+Definition tls_fields_cloned : list string := ["Certificates"; "InsecureSkipVerify"; "RootCAs"]%string.
 
 Lemma clone_field_inventory :
   covered (gen_transport_clone_fields ++ transport_runtime_fields) gen_transport_fields = true /\
   covered (gen_t2_clone_fields ++ t2_unset_fields) gen_t2_fields = true /\
   covered (gen_client_deep_fields ++ client_ref_special) gen_client_ref_fields = true /\
-  gen_options_ref_fields = options_ref_fields.
+  gen_options_ref_fields = options_ref_fields /\
+  covered gen_options_deep_fields gen_options_ref_fields = true /\
+  gen_fingerprint_reinstalled = true /\
+  covered tls_fields_cloned gen_tls_written_fields = true.
 Proof. repeat split; reflexivity. Qed.
 
 (* ---------- from the value model to the heap model ---------- *)
